@@ -194,9 +194,9 @@ func init() {
 		assume:  []string{"include/1, ensure_loaded/1 and directives with database side effects are outside the property's quantifier"},
 		trusted: []string{"TLC", "Loader.tla"},
 		run: func(c *checkCtx) {
-			cfgs := []string{"Loader_23.cfg", "Loader_long.cfg"}
+			cfgs := []string{"Loader_23.cfg", "Loader_long.cfg", "Loader_pair.cfg"}
 			if c.tier == "thorough" {
-				cfgs = []string{"Loader_33.cfg", "Loader_three.cfg", "Loader_long.cfg"}
+				cfgs = []string{"Loader_33.cfg", "Loader_three.cfg", "Loader_long.cfg", "Loader_pair.cfg"}
 			}
 			for _, cfg := range cfgs {
 				r := c.mcHolds("Loader", cfg, tlcOpts{})
